@@ -427,7 +427,7 @@ var Prop = &fw.Prop{
 		"each set is run through BuildTree (v2, v3, both JSON modes), PrunePathValues and PrunePathMap (v2, v3, both flags) and the flattener; " +
 		"plus exhaustive enumeration of present/live/deleted over a fixed universe of prefix-sharing paths. " +
 		"Non-trivial = a list with at least two entries or a tombstone above another path; distinct = distinct script.",
-	Quick: 3000, Thorough: 120000,
+	Quick: 12000, Thorough: 300000,
 	Gen: gen, Enumerate: enumerate,
 	NewReal: func() fw.Real { return fw.RealFunc(exec) },
 	Monitor: monitor, Shrink: shrinkCase, FixedLayout: true,
